@@ -514,3 +514,9 @@ package iscp
 //@   ensures[C03,C04] imp(taken && !failed, result1 == nil && result0 != nil && acked == 1)
 //@   ensures[C03,C04] imp(result1 == nil, taken && acked == 1)
 //@   ensures[C04] imp(result1 != nil, acked == 0)
+
+// OpenDownstream: the pre-registered data-id aliases are minted by the very generator the stream
+// keeps using afterwards, so no later alias can collide with a pre-registered one.
+//@ func (*Conn).OpenDownstream
+//@   assert[C03,C04] call Conn).send: aliasGenerator != nil && forall(a, uint32, imp(has(aliases, a), 1 <= a && a <= aliasGenerator.currentValue))
+//@   loop 2 invariant[C03,C04] aliases != nil && aliasGenerator != nil && aliasGenerator.currentValue <= rangeindex + 1 && forall(a, uint32, imp(has(aliases, a), 1 <= a && a <= aliasGenerator.currentValue))
